@@ -1406,8 +1406,14 @@ impl ProtocolState {
                 // queued (it may have had to wait for an operation that was being written).  Regardless of ping timeout
                 // configuration, if we haven't heard anything by KeepAlive * 1.5, then close the connection
                 if let Some(settings) = &self.current_settings {
-                    let final_timeout = self.config.ping_timeout.min(Duration::from_millis(settings.server_keep_alive as u64 * 500));
+                    let server_keep_alive = settings.server_keep_alive as u64;
+                    let final_timeout = self.config.ping_timeout.min(Duration::from_millis(server_keep_alive * 500));
                     self.ping_timeout_timepoint = Some(add_duration_saturating(now, final_timeout));
+
+                    // the next ping is due a keep alive interval after this transmission (never before the deadline above)
+                    if server_keep_alive > 0 {
+                        self.next_ping_timepoint = Some(now + Duration::from_secs(server_keep_alive));
+                    }
                 }
                 self.pending_write_completion_operations.push_back(operation.id);
             }
